@@ -760,12 +760,95 @@ func buildCallers(p *core.Program) *callers {
 			}
 		}
 	}
+	// a function used as a value (Normalizer: normalize, validation.By(fn), a
+	// method value) can be invoked at any later time, wherever the reference
+	// itself is evaluated — the regime and addon definitions built during
+	// initialisation hold their normalisers and validators this way
+	for _, pk := range p.Pkgs {
+		if !core.InModule(pk.Types) {
+			continue
+		}
+		for _, file := range pk.Syntax {
+			if p.IsTestFile(file.Pos()) {
+				continue
+			}
+			callFun := map[*ast.Ident]bool{}
+			ast.Inspect(file, func(n ast.Node) bool {
+				if call, ok := n.(*ast.CallExpr); ok {
+					switch f := ast.Unparen(call.Fun).(type) {
+					case *ast.Ident:
+						callFun[f] = true
+					case *ast.SelectorExpr:
+						callFun[f.Sel] = true
+					case *ast.IndexExpr:
+						if id, ok := f.X.(*ast.Ident); ok {
+							callFun[id] = true
+						}
+					}
+				}
+				return true
+			})
+			ast.Inspect(file, func(n ast.Node) bool {
+				id, ok := n.(*ast.Ident)
+				if !ok || callFun[id] {
+					return true
+				}
+				if f, ok := pk.TypesInfo.Uses[id].(*types.Func); ok && core.InModule(f.Pkg()) {
+					if p.DeclOf(f.Origin()) != nil {
+						mark(f.Origin())
+					}
+				}
+				return true
+			})
+		}
+	}
+	// concrete methods behind a module interface's method
+	var concrete []*types.Named
+	for _, pk := range p.Pkgs {
+		if !core.InModule(pk.Types) {
+			continue
+		}
+		sc := pk.Types.Scope()
+		for _, nm := range sc.Names() {
+			if tn, ok := sc.Lookup(nm).(*types.TypeName); ok && !tn.IsAlias() {
+				if n, ok := tn.Type().(*types.Named); ok && n.TypeParams().Len() == 0 {
+					if _, isIface := n.Underlying().(*types.Interface); !isIface {
+						concrete = append(concrete, n)
+					}
+				}
+			}
+		}
+	}
+	ifaceDone := map[*types.Func]bool{}
 	for len(work) > 0 {
 		f := work[0]
 		work = work[1:]
 		for _, g := range p.FuncRefs(f) {
-			if core.InModule(g.Pkg()) && !strings.HasPrefix(g.Name(), "Must") {
-				mark(g)
+			if !core.InModule(g.Pkg()) || strings.HasPrefix(g.Name(), "Must") {
+				continue
+			}
+			mark(g)
+			sig := g.Type().(*types.Signature)
+			if sig.Recv() == nil || ifaceDone[g] {
+				continue
+			}
+			it, isIface := sig.Recv().Type().Underlying().(*types.Interface)
+			if !isIface {
+				continue
+			}
+			ifaceDone[g] = true
+			for _, n := range concrete {
+				for _, t := range []types.Type{n, types.NewPointer(n)} {
+					if !types.Implements(t, it) {
+						continue
+					}
+					if m, _, _ := types.LookupFieldOrMethod(t, true, g.Pkg(), g.Name()); m != nil {
+						if mf, ok := m.(*types.Func); ok && core.InModule(mf.Pkg()) && p.DeclOf(mf.Origin()) != nil {
+							mark(mf.Origin())
+						}
+					}
+					break
+				}
 			}
 		}
 	}
